@@ -65,6 +65,7 @@ pub mod gen {
             json!({"ä": {"ö": [1, {"ü": 2}], "k": 3}, "z": [{"ß": {"k": 4}}, 5]}),
             json!([18446744073709551615u64, 18446744073709551614u64, 1]),
             json!([0, 1, 2, 3, 4, 5, 6]),
+            json!({"a": 1, "a b": 2, "a#": 3, "a!": {"a": 1, "a$": 2, "a ": 3}, "ab": {"b": 1}, "a/b": 5}),
         ]
     }
     pub fn random_doc(rng: &mut Rng, depth: usize) -> Value {
@@ -149,7 +150,11 @@ pub mod gen {
             cmp(Eq(Comparable::Function(TestFunction::Count(arg_rel(vec![Segment::Selectors(vec![Selector::Index(0), Selector::Index(0)])]))), lit_i(2))),                            // count(@[0,0]) == 2
             cmp(Gte(Comparable::Function(TestFunction::Count(arg_rel(vec![Segment::Selectors(vec![Selector::Wildcard, Selector::Index(-1)])]))), lit_i(3))),                          // count(@[*,-1]) >= 3
             cmp(Eq(cur(vec![sn("'a\\'b'")]), lit_i(1))),                                                                                                                              // @['a\'b'] == 1  (escaped quote)
-            t(rel(vec![name("\"'q'\"")])),                                                                                                                                           // @["'q'"]  (a member whose name is enclosed in quotes)
+            t(rel(vec![name("\"'q'\"")])),
+            t(rel(vec![name("'a\\/b'")])),                                                                                                                                              // @['a\/b']  (bare existence test, escaped solidus in the name)
+            nt(rel(vec![name("'a\\/b'")])),                                                                                                                                             // !@['a\/b']
+            t(Test::AbsQuery(JpQuery::new(vec![name("a"), name("b")]))),                                                                                                               // $.a.b
+            t(Test::AbsQuery(JpQuery::new(vec![name("ab")]))),                                                                                                                         // $.ab   (prints like $.a.b in a careless Display)                                                                                                                                           // @["'q'"]  (a member whose name is enclosed in quotes)
         ]
     }
     /// logical formulas over atoms: every atom, and !, &&, || combinations with <= 3 atoms (seeded sample of the pairs/triples)
